@@ -27,6 +27,14 @@ theorem suf_drop {b rv : Bytes} (lb : Nat) (h : b <:+ rv) (hl : b.length ≤ lb)
   rw [List.drop_append_of_le_length hle]
   exact List.suffix_append _ _
 
+theorem K_fmEnd {b : Bytes} {st : St} (fm : Bytes) (h : K b st) : K b (fmEnd fm st) := by
+  unfold fmEnd; split
+  · exact ⟨h.1, Or.inl rfl⟩
+  · exact h
+
+theorem fmEnd_rv (fm : Bytes) (st : St) : (fmEnd fm st).rv = st.rv := by
+  unfold fmEnd; split <;> rfl
+
 theorem K_cr {b : Bytes} {st : St} (h : K b st) : K b st.cr := h
 theorem K_blankline {b : Bytes} {st : St} (h : K b st) : K b st.blankline := h
 
@@ -156,6 +164,7 @@ theorem K_foldl {b : Bytes} (o : CmOpts) (ep : Bool) (g : Align → Bytes) :
 macro "kstep" : tactic => `(tactic| first
   | with_reducible assumption
   | with_reducible apply K_wr
+  | with_reducible apply K_fmEnd
   | with_reducible apply K_output
   | with_reducible apply K_cr
   | with_reducible apply K_blankline
@@ -267,7 +276,7 @@ theorem renderCm_frontMatter_prefix (o : CmOpts) (fm : Bytes) (spd sp : Sp) (res
       (match rest with | .cons n _ => some n.value | .nil => none))
       (.node (.frontMatter fm) sp .nil) {}) := by
     simp only [renderT, enter, exit, renderF]
-    exact output_frontMatter_fresh o fm
+    exact K_fmEnd fm (output_frontMatter_fresh o fm)
   have h1 := K_renderF o rest (some .document) none true _ h0
   simp only [renderT, enter, exit, renderF, isItemV] at h1 ⊢
   exact h1.1
@@ -275,7 +284,7 @@ theorem renderCm_frontMatter_prefix (o : CmOpts) (fm : Bytes) (spd sp : Sp) (res
 /-- The writer state after a document that consists of the front matter node alone. -/
 theorem renderT_doc_fm_nil (o : CmOpts) (fm : Bytes) (spd sp : Sp) :
     renderT o {} (.node .document spd (.cons (.node (.frontMatter fm) sp .nil) .nil)) {}
-      = output o false {} fm false .literal := rfl
+      = fmEnd fm (output o false {} fm false .literal) := rfl
 
 theorem output_frontMatter_fresh_rv (o : CmOpts) (fm : Bytes) :
     (output o false {} fm false .literal).rv = fm.reverse := by
